@@ -8,9 +8,12 @@
      denote_json (the declarative reading of the format; plus the implicit _InitialView) == what the implementation loaded
      load_json   (the reader mechanism of Json.v)                                       == what the implementation loaded
      for variants: the loaded content == the content loaded from the unpermuted document, and the denotations agree
-   doc_ok_json (the premise of C05_json_load_is_denotation) is required of cassis' own documents and counted for
-   fixtures (premises05). *)
-From Cassis Require Import Base Heap Schema Canon Reach JsonDoc Json CorrC02.
+   doc_ok_json (the premise of C05_json_load_is_denotation) is required of cassis' own documents and of the hand-written
+   ones and counted for fixtures (premises05).  A document or variant may leave out the %VIEWS entries of member-less
+   views (the property's "omission of empty views"): doc_ok_json, which asks for an entry per sofa, is then required of
+   JsonViewOmit.restore_views d -- the premise of C05_json_load_is_denotation_omitted (restore_views d is d when nothing
+   was left out); denote_json / load_json are evaluated on the document as it was loaded. *)
+From Cassis Require Import Base Heap Schema Canon Reach JsonDoc Json CorrC02 JsonViewOmit.
 Open Scope Z_scope.
 
 Record case05 := mkCase05 {
@@ -38,9 +41,12 @@ Definition read_ok (s : schema) (embedded : bool) (d : json) (want : ccas) : boo
         | _ => false end
       else true).
 
+(* well-formed once the entries of the member-less views are written out *)
+Definition doc_ok05 (s : schema) (d : json) : bool := doc_ok_json std_lex s (restore_views d).
+
 Definition check_case05 (c : case05) : bool :=
   let s := full_schema (j5_user c) in
-  (if j5_strict c then doc_ok_json std_lex s (j5_doc c) && forallb (fun vw => doc_ok_json std_lex s (fst vw)) (j5_vars c) else true)
+  (if j5_strict c then doc_ok05 s (j5_doc c) && forallb (fun vw => doc_ok05 s (fst vw)) (j5_vars c) else true)
   && j5_once c
   && read_ok s (j5_embedded c) (j5_doc c) (j5_canon c)
   && forallb (fun vw => read_ok s (j5_embedded c) (fst vw) (snd vw)
@@ -49,11 +55,11 @@ Definition check_case05 (c : case05) : bool :=
 
 Definition explain05 (c : case05) : list (list bool) :=
   let s := full_schema (j5_user c) in
-  [doc_ok_json std_lex s (j5_doc c);
+  [doc_ok05 s (j5_doc c);
    res_ccas_eqb (res_map with_initial_view (denote_json std_lex s (j5_doc c))) (j5_canon c);
    res_ccas_eqb (load_json std_lex s (j5_doc c)) (j5_canon c);
    read_ok s (j5_embedded c) (j5_doc c) (j5_canon c)]
-  :: map (fun vw => [doc_ok_json std_lex s (fst vw);
+  :: map (fun vw => [doc_ok05 s (fst vw);
                      res_ccas_eqb (res_map with_initial_view (denote_json std_lex s (fst vw))) (snd vw);
                      res_ccas_eqb (load_json std_lex s (fst vw)) (snd vw);
                      read_ok s (j5_embedded c) (fst vw) (snd vw);
@@ -63,4 +69,4 @@ Definition explain05 (c : case05) : list (list bool) :=
 (* the premise of the C05_json_* theorems: the document and all its variants are well-formed *)
 Definition premises05 (c : case05) : bool :=
   let s := full_schema (j5_user c) in
-  doc_ok_json std_lex s (j5_doc c) && forallb (fun vw => doc_ok_json std_lex s (fst vw)) (j5_vars c).
+  doc_ok05 s (j5_doc c) && forallb (fun vw => doc_ok05 s (fst vw)) (j5_vars c).
